@@ -517,3 +517,334 @@ func guardedReturnEarly(r *ssa.Return) bool {
 	}
 	return !f.Blocks[last].Dominates(r.Block())
 }
+
+func init() {
+	register("C27", "dominance rules on the SSA of SlotState.CheckEquivocation (R-EQUIVOC)",
+		"Decides the structural clauses of exact equivocation detection: a proof is returned only on the edge where a stored record has the same signer AND a different header hash, and it carries the stored header as first and the checked header as second, the signer and the slot; a stored record with the same signer and the same hash returns no proof and stores nothing again; otherwise the checked (header, signer) is appended to the slot's record list and written, together with the window start, in one batch whose flush error is returned; headers older than the 1000-slot capacity are ignored and pruning removes only slots below now-1000 once the window reached twice the capacity. "+
+			"Not decided: the exact contents of the window over whole histories of slot numbers.",
+		"database batch semantics trusted", "added in the build round (DESIGN.md §8.2): the window itself stays value-level",
+		func(c *Ctx) {
+			c.load("dot/state")
+			c.ruleEquivocation()
+			c.min("R-EQUIVOC", 8)
+		})
+	register("C25", "resolved-callee/ordering rule for the secondary-slot author (R-SECONDARY) and guard/constant rules of the threshold computation (R-THRESHOLDGUARDS)",
+		"Decides only the structural part of this numerical property: the secondary author index is big.Int(SetBytes = big-endian)(BLAKE2b-256(randomness || slot as 8 little-endian bytes)) mod the number of authorities, in that order and with those primitives, and both verifiers compare the claimed authority index with exactly that value; CalculateThreshold rejects c1=0, c2=0 and c>1, scales by exactly 2^128, saturates to the maximum when the result equals 2^128 and refuses results longer than 16 bytes. "+
+			"Not decided (and not decidable statically here): that the floating-point/rational arithmetic equals floor(2^128*(1-(1-c)^(1/n))) or is monotone.",
+		"math, math/big trusted", "partial claim; numerics are out of reach (DESIGN.md §5)",
+		func(c *Ctx) {
+			c.load(babeDir)
+			c.ruleBabeLottery()
+			c.min("R-SECONDARY", 5)
+			c.min("R-THRESHOLDGUARDS", 4)
+		})
+}
+
+func (c *Ctx) ruleEquivocation() {
+	f := c.fn("dot/state", "(*SlotState).CheckEquivocation")
+	if f == nil {
+		return
+	}
+	c.doc("R-EQUIVOC", "CheckEquivocation: proof only under (stored.Signer == signer) && (stored.Header.Hash() != header.Hash()); same signer & same hash -> (nil,nil) without a write; otherwise append + one batch (record list, window start, pruned keys) + Flush; constants 1000 / 2000")
+	sp := c.ssaPkg("dot/state")
+	mx, _ := constOf(sp, "maxSlotCapacity")
+	pb, _ := constOf(sp, "pruningBound")
+	c.ob("R-EQUIVOC", "constants", token.NoPos, mx == 1000 && pb == 2*mx, fmt.Sprintf("maxSlotCapacity=%d pruningBound=%d (window 1000 slots, pruned at twice the capacity)", mx, pb))
+	isSignerEq := func(fc fact) bool {
+		bo, ok := fc.cond.(*ssa.BinOp)
+		if !ok || (bo.Op != token.EQL && bo.Op != token.NEQ) || (bo.Op == token.EQL) != fc.truth {
+			return false
+		}
+		has := false
+		for v := range backwardSlice(bo, nil) {
+			if _, fv, ok := fieldLoad(v); ok && fv != nil && fv.Name() == "Signer" {
+				has = true
+			}
+			if fa, ok := v.(*ssa.FieldAddr); ok && fieldVar(fa) != nil && fieldVar(fa).Name() == "Signer" {
+				has = true
+			}
+		}
+		return has
+	}
+	hashCmp := func(fc fact) (isCmp bool, differ bool) {
+		bo, ok := fc.cond.(*ssa.BinOp)
+		if !ok || (bo.Op != token.EQL && bo.Op != token.NEQ) {
+			return false, false
+		}
+		n := 0
+		for _, side := range []ssa.Value{bo.X, bo.Y} {
+			if call, ok := side.(*ssa.Call); ok && strings.HasSuffix(calleeName(&call.Call), "types.Header).Hash") {
+				n++
+			}
+		}
+		if n != 2 {
+			return false, false
+		}
+		return true, (bo.Op == token.NEQ) == fc.truth
+	}
+	var flush *ssa.Call
+	var puts []*ssa.Call
+	eachInstr(f, func(_ *ssa.BasicBlock, _ int, in ssa.Instruction) {
+		if call, ok := in.(*ssa.Call); ok && call.Call.IsInvoke() {
+			switch call.Call.Method.Name() {
+			case "Flush":
+				flush = call
+			case "Put":
+				puts = append(puts, call)
+			}
+		}
+	})
+	nproof, nsame := 0, 0
+	for _, r := range returnsOf(f) {
+		res := resultOf(r, 0)
+		facts := factsAt(r.Block())
+		signer, cmp, differ := false, false, false
+		for _, fc := range facts {
+			if isSignerEq(fc) {
+				signer = true
+			}
+			if ic, d := hashCmp(fc); ic {
+				cmp, differ = true, d
+			}
+		}
+		if !isNilConst(res) {
+			nproof++
+			c.ob("R-EQUIVOC", fmt.Sprintf("proof-return#%d:same-signer-different-hash", nproof), r.Pos(), signer && cmp && differ,
+				"an equivocation proof is returned on a path that is not guarded by `same signer` and `different header hash`")
+			// proof contents
+			okFields := false
+			if al, ok := res.(*ssa.Alloc); ok {
+				set := map[string]ssa.Value{}
+				for _, rf := range *al.Referrers() {
+					if fa, ok := rf.(*ssa.FieldAddr); ok {
+						for _, r2 := range *fa.Referrers() {
+							if st, ok := r2.(*ssa.Store); ok && st.Addr == fa {
+								set[fieldVar(fa).Name()] = st.Val
+							}
+						}
+					}
+				}
+				second := false
+				if v, ok := set["SecondHeader"]; ok {
+					if u, ok := v.(*ssa.UnOp); ok && u.X == ssa.Value(f.Params[3]) {
+						second = true
+					}
+				}
+				first := false
+				if v, ok := set["FirstHeader"]; ok {
+					for x := range backwardSlice(v, nil) {
+						if _, fv, ok := fieldLoad(x); ok && fv != nil && fv.Name() == "Header" {
+							first = true
+						}
+						if fa, ok := x.(*ssa.FieldAddr); ok && fieldVar(fa) != nil && fieldVar(fa).Name() == "Header" {
+							first = true
+						}
+					}
+				}
+				okFields = first && second && set["Offender"] == ssa.Value(f.Params[4]) && set["Slot"] == ssa.Value(f.Params[2])
+			}
+			c.ob("R-EQUIVOC", fmt.Sprintf("proof-return#%d:carries-both-headers", nproof), r.Pos(), okFields, "the proof must carry the stored header first, the checked header second, the signer and the slot")
+			continue
+		}
+		if signer && cmp && !differ {
+			nsame++
+			// no write on this path: the return is not reachable from a Put/Flush
+			wrote := false
+			for _, p := range puts {
+				if instrReaches(p, r) {
+					wrote = true
+				}
+			}
+			c.ob("R-EQUIVOC", "identical-header:no-proof-no-write", r.Pos(), !wrote, "re-checking an identical header returns no proof and stores nothing")
+		}
+	}
+	if nproof == 0 {
+		c.ob("R-EQUIVOC", "proof-return", f.Pos(), false, "no proof-returning path found")
+	}
+	if nsame == 0 {
+		c.ob("R-EQUIVOC", "identical-header:no-proof-no-write", f.Pos(), false, "no `same signer, same hash -> nil` path found: an identical header would be stored again or reported")
+	}
+	// append of the new record, then batch writes, then flush, final return after flush success
+	appended := false
+	eachInstr(f, func(_ *ssa.BasicBlock, _ int, in ssa.Instruction) {
+		call, ok := in.(*ssa.Call)
+		if !ok {
+			return
+		}
+		if b, ok := call.Call.Value.(*ssa.Builtin); ok && b.Name() == "append" && strings.Contains(call.Type().String(), "headerAndSigner") {
+			for v := range backwardSlice(call.Call.Args[1], nil) {
+				if v == ssa.Value(f.Params[3]) {
+					appended = true
+				}
+			}
+		}
+	})
+	c.ob("R-EQUIVOC", "record-appended", f.Pos(), appended, "the checked header and signer are appended to the slot's record list")
+	okBatch := flush != nil && len(puts) >= 2
+	if okBatch {
+		for _, p := range puts {
+			if !instrReaches(p, flush) {
+				okBatch = false
+			}
+		}
+	}
+	c.ob("R-EQUIVOC", "one-batch-flushed-last", f.Pos(), okBatch, "record list and window start are put into one batch that is flushed afterwards")
+	fin := false
+	if flush != nil {
+		for _, r := range returnsOf(f) {
+			if isNilConst(resultOf(r, 0)) && isNilConst(resultOf(r, 1)) && guardedBy(r.Block(), errSuccessGuard(flush)) {
+				fin = true
+			}
+		}
+	}
+	c.ob("R-EQUIVOC", "success-after-flush", f.Pos(), fin, "the storing path returns success only after the batch was flushed successfully")
+	// capacity guard
+	capG := false
+	for _, b := range f.Blocks {
+		if iff := ifOf(b); iff != nil {
+			if subj, op, k, ok := cmpWithConst(iff.Cond); ok && k == mx && op == token.GTR {
+				if call, ok := subj.(*ssa.Call); ok && strings.HasSuffix(calleeName(&call.Call), "SaturatingSub") {
+					capG = true
+				}
+			}
+		}
+	}
+	c.ob("R-EQUIVOC", "older-than-capacity-ignored", f.Pos(), capG, "headers more than maxSlotCapacity slots old are not checked (saturating subtraction, strict comparison)")
+}
+
+func (c *Ctx) ruleBabeLottery() {
+	c.doc("R-SECONDARY", "getSecondarySlotAuthor: Blake2bHash(append(randomness, LittleEndian.PutUint64(slot))) -> big.Int.SetBytes -> Mod(numAuths); verifySecondarySlotPlain/VRF compare the claimed index with it")
+	f := c.fn(babeDir, "getSecondarySlotAuthor")
+	if f != nil {
+		var put, hash, setb, mod *ssa.Call
+		var app ssa.Value
+		eachInstr(f, func(_ *ssa.BasicBlock, _ int, in ssa.Instruction) {
+			call, ok := in.(*ssa.Call)
+			if !ok {
+				return
+			}
+			n := calleeName(&call.Call)
+			switch {
+			case strings.Contains(n, "littleEndian).PutUint64"):
+				put = call
+			case strings.Contains(n, "bigEndian).PutUint64"):
+				put = nil
+			case strings.HasSuffix(n, "common.Blake2bHash"):
+				hash = call
+			case n == "(*math/big.Int).SetBytes":
+				setb = call
+			case n == "(*math/big.Int).Mod":
+				mod = call
+			}
+			if b, ok := call.Call.Value.(*ssa.Builtin); ok && b.Name() == "append" {
+				app = call
+			}
+		})
+		c.ob("R-SECONDARY", "slot-little-endian-u64", f.Pos(), put != nil && put.Call.Args[len(put.Call.Args)-1] == ssa.Value(f.Params[0]), "the slot is serialised as 8 little-endian bytes")
+		okOrder := false
+		if app != nil && hash != nil {
+			ac := app.(*ssa.Call)
+			// first operand derives from randomness, second from the slot buffer
+			r1 := false
+			for v := range backwardSlice(ac.Call.Args[0], nil) {
+				if v == ssa.Value(f.Params[2]) {
+					r1 = true
+				}
+				if al, ok := v.(*ssa.Alloc); ok {
+					for _, rf := range *al.Referrers() {
+						if st, ok := rf.(*ssa.Store); ok && st.Val == ssa.Value(f.Params[2]) {
+							r1 = true
+						}
+					}
+				}
+			}
+			s2 := put != nil && ac.Call.Args[1] == put.Call.Args[len(put.Call.Args)-2]
+			okOrder = r1 && s2 && hash.Call.Args[0] == app
+		}
+		c.ob("R-SECONDARY", "hash-of-randomness-then-slot", f.Pos(), okOrder, "the hashed message is randomness followed by the slot bytes, hashed with BLAKE2b-256")
+		okBE := setb != nil && hash != nil
+		if okBE {
+			from := false
+			for v := range backwardSlice(setb.Call.Args[1], nil) {
+				if ex, ok := v.(*ssa.Extract); ok && ex.Tuple == ssa.Value(hash) {
+					from = true
+				}
+			}
+			okBE = from
+		}
+		c.ob("R-SECONDARY", "digest-read-big-endian", f.Pos(), okBE, "the digest is interpreted as a big-endian integer (big.Int.SetBytes)")
+		okMod := false
+		if mod != nil {
+			for v := range backwardSlice(mod.Call.Args[2], nil) {
+				if v == ssa.Value(f.Params[1]) {
+					okMod = true
+				}
+			}
+		}
+		c.ob("R-SECONDARY", "mod-number-of-authorities", f.Pos(), okMod, "the author index is the integer modulo the number of authorities")
+	}
+	for _, name := range []string{"verifySecondarySlotPlain", "verifySecondarySlotVRF"} {
+		g := c.fn(babeDir, name)
+		if g == nil {
+			continue
+		}
+		ok := false
+		eachInstr(g, func(_ *ssa.BasicBlock, _ int, in ssa.Instruction) {
+			bo, isBo := in.(*ssa.BinOp)
+			if !isBo || (bo.Op != token.NEQ && bo.Op != token.EQL) {
+				return
+			}
+			exp := false
+			for _, side := range []ssa.Value{bo.X, bo.Y} {
+				if ex, isEx := side.(*ssa.Extract); isEx {
+					if cl, isCl := ex.Tuple.(*ssa.Call); isCl && cl.Call.StaticCallee() != nil && cl.Call.StaticCallee().Name() == "getSecondarySlotAuthor" {
+						exp = true
+					}
+				}
+			}
+			if exp {
+				ok = true
+			}
+		})
+		c.ob("R-SECONDARY", name+":index-compared-with-expected-author", g.Pos(), ok, "the claimed authority index must be compared with getSecondarySlotAuthor's result")
+	}
+	c.doc("R-THRESHOLDGUARDS", "CalculateThreshold: c1==0||c2==0 -> error; c>1 -> error; scale = 1<<128; result == 1<<128 -> MaxUint128; more than 16 bytes -> error")
+	t := c.fn(babeDir, "CalculateThreshold")
+	if t == nil {
+		return
+	}
+	zero, gt1, shift, sat, len16 := false, false, false, false, false
+	eachInstr(t, func(b *ssa.BasicBlock, _ int, in ssa.Instruction) {
+		switch x := in.(type) {
+		case *ssa.BinOp:
+			if x.Op == token.EQL {
+				if k, ok := constInt(x.Y); ok && k == 0 && (x.X == ssa.Value(t.Params[0]) || x.X == ssa.Value(t.Params[1])) {
+					zero = true
+				}
+			}
+			if x.Op == token.GTR {
+				if k, ok := x.Y.(*ssa.Const); ok && k.Value != nil && k.Value.String() == "1" {
+					gt1 = true
+				}
+				if k, ok := constInt(x.Y); ok && k == 16 {
+					len16 = true
+				}
+			}
+		case *ssa.Call:
+			n := calleeName(&x.Call)
+			if n == "(*math/big.Int).Lsh" {
+				if k, ok := constInt(x.Call.Args[2]); ok && k == 128 {
+					shift = true
+				}
+			}
+			if n == "(*math/big.Int).Cmp" {
+				sat = true
+			}
+		}
+	})
+	c.ob("R-THRESHOLDGUARDS", "rejects-zero-c1-or-c2", t.Pos(), zero, "c1 == 0 or c2 == 0 must be rejected")
+	c.ob("R-THRESHOLDGUARDS", "rejects-c>1", t.Pos(), gt1, "a ratio above 1 must be rejected")
+	c.ob("R-THRESHOLDGUARDS", "scale-2^128", t.Pos(), shift, "the probability is scaled by exactly 2^128")
+	c.ob("R-THRESHOLDGUARDS", "saturates-at-max", t.Pos(), sat, "a result equal to 2^128 (c = 1) saturates to the maximum 128-bit value")
+	c.ob("R-THRESHOLDGUARDS", "at-most-16-bytes", t.Pos(), len16, "results longer than 16 bytes are refused")
+}
